@@ -122,6 +122,11 @@ fourth batch (the lines the repairs of 2026-09-29 introduced; uc_neighbor_offset
                                           when a SKIPPED statement assigns `obj.attr`, everything known about `obj` (its
                                           attributes, `len(obj)`) becomes opaque
 
+fifth batch (replace_pattern_in_structure: sample size, index map, deletion sets, pre-translations, wrap; the search helpers)
+  `round(x)` (one argument, a float)      `Py.round x`: an Int, the nearest integer, a tie goes to the EVEN neighbour (python rounds the
+                                          double; the model rounds the exact rational — they agree whenever the float product is exact)
+  fragments also: `("callkw", (f, k))`    after `("assign", x)`: the keyword argument `k` of the unique call of `f` inside the assigned value
+
 sequencing slices (`trace=True`, used for mofun_cli)
   The body must consist of simple statements (expression statements, assignments, assert, del) and `if`s over them; no
   loops, no return.  The translation is `List String`: the simple statements that are executed, in program order, as
@@ -1158,6 +1163,13 @@ class Fn:
                 if a.ty == NUM:
                     return V("(Py.abs %s)" % a.term, NUM, a.binds, a.refs)
                 self.fail(node, "abs of %s" % (a.ty,))
+            if f.id == "round" and len(args) == 1:
+                # python `round(x)` of a float with ONE argument: an int, the nearest one, a tie to the even neighbour
+                a = args[0]
+                if a.ty in (DECLIT, NUM):
+                    a = self.coerce(node, a, NUM)
+                    return V("(Py.round %s)" % a.term, INT, a.binds, a.refs)
+                self.fail(node, "round of %s" % (a.ty,))
             if f.id == "enumerate" and len(args) == 1 and isinstance(args[0].ty, tuple) and args[0].ty[0] == "list":
                 a = args[0]
                 return V("(Py.enumerate %s)" % a.term, LIST(TUP(NAT, a.ty[1])), a.binds, a.refs)
@@ -1987,6 +1999,14 @@ class Fn:
                         if len(calls) != 1 or not calls[0].args:
                             raise Unsupported("%s: %s: %d calls of %r in %s" % (self.path, self.cfg["py"], len(calls), arg, ast.unparse(val)))
                         val = calls[0].args[0]
+                    elif sel == "callkw":        # the keyword argument `kw` of the unique call of a function whose name ends with `fn`
+                        fn_, kwname = arg
+                        calls = [n for n in ast.walk(val) if isinstance(n, ast.Call) and ast.unparse(n.func).endswith(fn_)]
+                        vals = [k.value for c in calls for k in c.keywords if k.arg == kwname]
+                        if len(calls) != 1 or len(vals) != 1:
+                            raise Unsupported("%s: %s: %d calls of %r with %d keywords %r in %s" %
+                                              (self.path, self.cfg["py"], len(calls), fn_, len(vals), kwname, ast.unparse(val)))
+                        val = vals[0]
                     elif sel == "eltcallee":     # the name of the function a comprehension applies to its variable, as a string
                         if not (isinstance(val, ast.ListComp) and isinstance(val.elt, ast.Call) and len(val.elt.args) == 1 and
                                 isinstance(val.elt.args[0], ast.Name) and val.elt.args[0].id == ast.unparse(val.generators[0].target)
@@ -2539,6 +2559,32 @@ namespace Mofun.Generated.Code
 open Mofun Mofun.Generated
 
 '''
+
+
+PRELUDE5 = r'''/-! fifth batch -/
+
+/-- python `round(x)` of a float (one argument): the nearest integer, a tie goes to the EVEN neighbour -/
+def round (x : Rat) : Int :=
+  let fl := Rat.floor x
+  let r := x - (fl : Rat)
+  if r < 1 / 2 then fl else if 1 / 2 < r then fl + 1 else if fl % 2 = 0 then fl else fl + 1
+
+'''
+assert PRELUDE.count("end Mofun.Generated.Py\n") == 1
+PRELUDE = PRELUDE.replace("end Mofun.Generated.Py\n", PRELUDE5 + "end Mofun.Generated.Py\n")
+
+_REPL = dict(file="mofun/mofun.py", py="replace_pattern_in_structure", slice=True, decorators=["suppress_warnings"])
+
+FUNCTIONS += [
+    # ---- fifth batch: replace_pattern_in_structure and the search helpers
+    dict(_REPL, lean="replaceUsesSample",
+         fragment=[("if", "replace_fraction"), "test"], params=[("replace_fraction", NUM)], inputs={}, ret=BOOL,
+         doc=" (FRAGMENT: is only a sample of the matches replaced)"),
+    dict(_REPL, lean="replaceSampleSize",
+         fragment=[("if", "replace_fraction"), "body", ("assign", "replace_indices"), ("callkw", ("sample", "k"))],
+         params=[("replace_fraction", NUM)], inputs={}, abstractions={"len(match_positions)": ("num_matches", NAT)}, ret=INT,
+         doc=" (FRAGMENT: the number of matches `random.sample` is asked for, `round(replace_fraction * len(match_positions))`)"),
+]
 
 
 def render(repo=None):
